@@ -19,6 +19,7 @@ type CrawlOpts struct {
 	Small       bool // keep runs short (stop/kill enumeration)
 	NoBadSeeds  bool
 	RateLimit   int  // 0: sometimes, 1: always, -1: never
+	Ports       bool // some origins listen on an explicit non-default port
 	BigBodies   bool // large spooled text bodies cut mid-transfer (C16)
 	ManyHosts   int  // extra seeds on distinct hosts that answer 429 (C16: limiter table bound)
 }
@@ -41,6 +42,7 @@ type crawlGen struct {
 	reliable  bool // the page being built is certainly fetched with status 200
 	rowN      int
 	exclHost  string
+	bigHub    bool // one hub page with more than a hundred outlinks has been generated
 }
 
 // followed is the expectation for the target of a single redirect from an asset.
@@ -122,6 +124,9 @@ func (c *crawlGen) asset(host, owner string, level int, maxRetry int, seencheck 
 	if c.o.BigBodies && c.Chance(1, 6) {
 		kind = 16
 	}
+	if c.o.Prop == "C13" && c.Chance(1, 3) {
+		kind = 7 // a throttling asset in the middle of a page: the assets after it enter the limiter for the same host
+	}
 	switch kind {
 	case 0, 1, 2: // plain ok image, various reference forms
 		ct, b := c.body("img")
@@ -161,6 +166,9 @@ func (c *crawlGen) asset(host, owner string, level int, maxRetry int, seencheck 
 	case 7: // always failing
 		p := "/dead/" + name + ".png"
 		st := c.PickInt(500, 502, 429, 408)
+		if c.o.Prop == "C13" {
+			st = c.PickInt(429, 408, 425, 429)
+		}
 		r := c.res(host, p, owner, level, Must, Status(st))
 		r.Tags["attempts"] = fmt.Sprint(maxRetry + 1)
 		return `<img src="` + p + `">`
@@ -271,6 +279,18 @@ func (c *crawlGen) page(host, path, owner string, nAssets int, cfg *Cfg, outlink
 // seed adds one seed of a randomly chosen shape and returns its queue row(s).
 func (c *crawlGen) seed(cfg *Cfg) []QRow {
 	host := c.Host()
+	if c.o.Ports && c.Chance(1, 2) {
+		host += c.Pick(":8080", ":8443", ":81")
+	}
+	if c.o.Prop == "C13" {
+		// pages with many assets on one host (retries do not pass the limiter again, by design: later assets do)
+		p := "/" + c.Name("page") + "/index.html"
+		v := URL(host, p)
+		c.reliable = true
+		c.page(host, p, v, 4+c.N(5), cfg, nil)
+		c.reliable = false
+		return []QRow{c.row(v)}
+	}
 	shape := c.N(15)
 	if !c.o.Adversarial && shape == 14 {
 		shape = 13
@@ -382,6 +402,10 @@ func (c *crawlGen) seed(cfg *Cfg) []QRow {
 		if c.Chance(1, 3) {
 			n = 4 + c.N(8) // more outlinks than any stage channel can buffer
 		}
+		if c.o.Prop == "C15" && !c.bigHub && c.Chance(1, 2) {
+			n = 101 + c.N(120) // more outlinks than one queue batch holds: size-triggered batches, several in flight
+			c.bigHub = true
+		}
 		if len(c.sharedOut) > 0 && c.Chance(1, 2) {
 			outs = append(outs, c.sharedOut[c.N(len(c.sharedOut))])
 		}
@@ -487,6 +511,9 @@ func GenCrawl(t *Tape, o CrawlOpts) *Scenario {
 	cfg.Workers = 1 + c.N(4)
 	cfg.MaxConcurrentAssets = 1 + c.N(4)
 	cfg.MaxRetry = c.N(3)
+	if o.Prop == "C13" && cfg.MaxRetry == 0 {
+		cfg.MaxRetry = 1 + c.N(2)
+	}
 	cfg.MaxRedirect = c.N(5)
 	cfg.Seencheck = !c.Chance(1, 4)
 	cfg.PoolSize = 1 + c.N(3)
@@ -513,6 +540,10 @@ func GenCrawl(t *Tape, o CrawlOpts) *Scenario {
 		cfg.RLCapacity = float64(c.PickInt(1, 2, 5, 150))
 		cfg.RLRate = float64(c.PickInt(1, 2, 10, 50))
 		cfg.RLCleanupSec = c.PickInt(300, 300, 5, 60)
+		if o.Prop == "C13" {
+			cfg.RLCleanupSec = 300 // the bucket that holds the penalty stays in the table
+			cfg.MaxConcurrentAssets = 1 + c.N(2)
+		}
 	}
 	if o.Hops {
 		cfg.MaxHops = c.N(3)
@@ -568,6 +599,10 @@ func GenCrawl(t *Tape, o CrawlOpts) *Scenario {
 	}
 	g.Sc.StopAtIdle = true
 	g.Sc.Sched.MaxSteps = 60000
+	if c.bigHub {
+		g.Sc.Sched.MaxSteps = 600000
+		g.Sc.Sched.LazyClock = true // a hundred outlinks inside one batch-timer period
+	}
 	g.Sc.Sched.MaxSimSec = 4 * 3600
 	return g.Sc
 }
